@@ -184,14 +184,22 @@ impl FinalityTracker {
             return FinalizationEvent::default();
         };
 
-        match status {
-            FinalizationStatus::Notarized(hash)
-            | FinalizationStatus::Finalized(hash)
-            | FinalizationStatus::ImplicitlyFinalized(hash) => {
-                assert_eq!(&hash, block_hash, "consensus safety violation");
+        match &status {
+            FinalizationStatus::Notarized(hash) => {
+                assert_eq!(hash, block_hash, "consensus safety violation");
                 FinalizationEvent::default()
             }
-            FinalizationStatus::ImplicitlySkipped => FinalizationEvent::default(),
+            FinalizationStatus::Finalized(hash) | FinalizationStatus::ImplicitlyFinalized(hash) => {
+                assert_eq!(hash, block_hash, "consensus safety violation");
+                // slot is already decided, keep its status
+                self.status.insert(*slot, status);
+                FinalizationEvent::default()
+            }
+            FinalizationStatus::ImplicitlySkipped => {
+                // slot is already decided, keep its status
+                self.status.insert(*slot, status);
+                FinalizationEvent::default()
+            }
             FinalizationStatus::FinalPendingNotar => {
                 let mut event = FinalizationEvent::default();
                 self.status
@@ -221,9 +229,12 @@ impl FinalityTracker {
         };
 
         match status {
-            FinalizationStatus::FinalPendingNotar
-            | FinalizationStatus::Finalized(_)
-            | FinalizationStatus::ImplicitlyFinalized(_) => FinalizationEvent::default(),
+            FinalizationStatus::FinalPendingNotar => FinalizationEvent::default(),
+            FinalizationStatus::Finalized(_) | FinalizationStatus::ImplicitlyFinalized(_) => {
+                // slot is already decided, keep its status
+                self.status.insert(slot, status);
+                FinalizationEvent::default()
+            }
             FinalizationStatus::Notarized(block_hash) => {
                 let mut event = FinalizationEvent::default();
                 self.status
